@@ -22,7 +22,7 @@ func (s *CollectionServer) Unwrap() any {
 }
 
 func (s *CollectionServer) GetMetadata(_ context.Context, request *traits.GetMetadataRequest) (*traits.Metadata, error) {
-	return s.model.GetMetadata(request.Name)
+	return s.model.GetMetadata(request.Name, resource.WithReadMask(request.ReadMask))
 }
 
 func (s *CollectionServer) PullMetadata(request *traits.PullMetadataRequest, server traits.MetadataApi_PullMetadataServer) error {
